@@ -642,6 +642,11 @@ func (f *STFS) Remove(name string) error {
 	f.ioLock.Lock()
 	defer f.ioLock.Unlock()
 
+	// The root directory can't be removed
+	if root, err := f.metadata.Metadata.GetRootPath(context.Background()); err != nil || root == name || pathext.IsRoot(name, false) {
+		return os.ErrInvalid
+	}
+
 	return f.removeWithoutLocking(name)
 }
 
@@ -718,6 +723,11 @@ func (f *STFS) RemoveAll(path string) error {
 
 	f.ioLock.Lock()
 	defer f.ioLock.Unlock()
+
+	// The root directory can't be removed
+	if root, err := f.metadata.Metadata.GetRootPath(context.Background()); err != nil || root == path || pathext.IsRoot(path, false) {
+		return os.ErrInvalid
+	}
 
 	err := f.writeOps.Delete(path)
 	if errors.Is(err, sql.ErrNoRows) {
